@@ -13,6 +13,7 @@ mod simdisk;
 mod p01;
 mod p02;
 mod p03;
+mod p05;
 mod p09;
 mod items;
 mod p11;
@@ -36,6 +37,10 @@ macro_rules! families {
             }
             "C03" => {
                 type $f = p03::C03;
+                $body
+            }
+            "C05" => {
+                type $f = p05::C05;
                 $body
             }
             "C09" => {
@@ -121,6 +126,10 @@ fn main() {
             let outp = PathBuf::from(&args[4]);
             let budget: u64 = args.get(5).and_then(|s| s.parse().ok()).unwrap_or(1500);
             families!(prop, F => minimise_child::<F>(&inp, &outp, budget))
+        }
+        "diag-probe" => {
+            p05::diag_probe_child();
+            0
         }
         "gen" => {
             // print the scenario of run i (debugging aid)
